@@ -34,7 +34,7 @@ structure Cfg where
   addPath : Nat := 0                   -- 0 off, 1 receive, 2 send, 3 both
   addpaths : List Family := []         -- `neighbor.addpaths()`
   pathsLimit : AList Family Nat := []  -- `capability.paths_limit_per_family`
-  graceful : Option Nat := none        -- restart time when enabled
+  graceful : Option Nat := none        -- configured restart time when enabled (0: the hold time is used)
   routeRefresh : Bool := false
   operational : Bool := false
   extMsg : Bool := true
@@ -54,6 +54,9 @@ def ourPathsLimit (cfg : Cfg) : List Triple :=
   (cfg.pathsLimit.filter (fun e => ap.contains e.1 && decide (cfg.addPath % 2 = 1) && decide (0 < e.2))).map
     (fun e => (e.1.1, e.1.2, e.2))
 
+/-- `Neighbor.infer`: graceful restart enabled with time 0 takes the hold time. -/
+def restartTime (cfg : Cfg) (t : Nat) : Nat := if t = 0 then cfg.hold else t
+
 /-- `Capabilities.new`: the capabilities in dict insertion order = emission order. -/
 def ourCaps (cfg : Cfg) : List Cap :=
   cfg.families.map (fun f => Cap.mp f.1 f.2)
@@ -63,7 +66,7 @@ def ourCaps (cfg : Cfg) : List Cap :=
         [Cap.addpath ((addPathAllowed.filter (fun f => cfg.addpaths.contains f)).map (famTriple cfg.addPath))] else [])
   ++ (if cfg.addPath ≠ 0 ∧ ourPathsLimit cfg ≠ [] then [Cap.pathsLimit (ourPathsLimit cfg)] else [])
   ++ (match cfg.graceful with
-      | some t => [Cap.graceful 0 (t % 4096) (cfg.families.map (famTriple 128))]
+      | some t => [Cap.graceful 0 (restartTime cfg t % 4096) (cfg.families.map (famTriple 128))]
       | none => [])
   ++ (if cfg.routeRefresh then [Cap.refresh, Cap.enhanced] else [])
   ++ (if cfg.operational then [Cap.operational] else [])
@@ -79,6 +82,21 @@ def trans (asn : Nat) : Nat := if asn > 65535 then asTrans else asn
 /-- `Open.make_open(Version(4), local_as, hold_time, router_id, Capabilities().new(neighbor, False))` -/
 def ourOpen (cfg : Cfg) : OpenMsg :=
   { version := 4, myAs := trans cfg.localAs, hold := cfg.hold, bgpId := cfg.routerId, caps := ourCaps cfg }
+
+/-- **The configurations that have an OPEN** (closed form, decidable): AS number and identifier fit 4
+    octets, hold time 2; AFI/SAFI of the families fit their fields and the graceful-restart value
+    (2 + 4 per family) fits one capability; the ADD-PATH direction is an octet; paths-limit values
+    fit 2 octets and the capability; host/domain names are ASCII (the configuration grammar: letters,
+    digits, '.', '-'; they are cut to 64 octets when sent); the software version string is UTF-8 of
+    at most 252 octets.  Nothing is asked of the lists of ADD-PATH / next-hop families: what is sent
+    is their intersection with the implementation's own tables. -/
+def cfgOK (cfg : Cfg) : Bool :=
+  decide (cfg.localAs < 4294967296) && decide (cfg.hold < 65536) && decide (cfg.routerId < 4294967296)
+  && cfg.families.all (fun f => decide (f.1 < 65536) && decide (f.2 < 256)) && decide (cfg.families.length ≤ 62)
+  && decide (cfg.addPath < 256)
+  && cfg.pathsLimit.all (fun e => decide (e.2 < 65536)) && decide (cfg.pathsLimit.length ≤ 50)
+  && cfg.host.all (fun b => decide (b < 128)) && cfg.domain.all (fun b => decide (b < 128))
+  && utf8Valid cfg.swVersion && cfg.swVersion.all (fun b => decide (b < 256)) && decide (cfg.swVersion.length ≤ 252)
 
 /-! ## `Negotiated._negotiate` -/
 
